@@ -20,6 +20,7 @@ CONSTANTS
  ListOrders <- MC_ListOrders
  EMIT <- MC_EMIT
  BatchAtEnd <- MC_BatchAtEnd
+ CoordPkps <- MC_CoordPkps
 INIT Init
 NEXT Next
 CHECK_DEADLOCK FALSE
